@@ -198,6 +198,17 @@ type msBeginArgs struct {
 	viaTask bool
 }
 
+// msWhale: user 0 holds 2^66 of every group on both channels, so that the amounts of one multi-swap can add up beyond 2^64
+func (cw *ccWorld) msWhale() {
+	cw.whale = true
+	big66 := new(big.Int).Lsh(big.NewInt(1), 66)
+	for _, ch := range []string{"tt", "vt"} {
+		for _, g := range []string{"G1", "G2"} {
+			cw.w.SetBalance(ch, balance.BalanceTypeToken, cw.users[0].AddrString(), g, big66)
+		}
+	}
+}
+
 func (cw *ccWorld) msRandBegin(c *Ctx, ch string, ids []string, wellFormed bool) msBeginArgs {
 	rng := c.Rng
 	own := strings.ToUpper(ch)
@@ -224,6 +235,15 @@ func (cw *ccWorld) msRandBegin(c *Ctx, ch string, ids []string, wellFormed bool)
 			// never completed by its owner) or towards a channel that does not exist
 			b.to = []string{own, own, "XX"}[rng.Intn(3)]
 		}
+	}
+	if cw.whale && b.tok == own && rng.Intn(3) == 0 {
+		// three assets just below 2^63 each: every one fits 64 bits, their sum does not
+		b.u, b.to = 0, other
+		for _, g := range []string{"G1", "G2", "G1"} {
+			b.assets = append(b.assets, msAsset{group: own + "_" + g, amt: (1 << 62) + (1 << 61) + int64(rng.Intn(1000))})
+		}
+		c.Count("multi_swap_adding_up_beyond_2^64")
+		return b
 	}
 	n := 1 + rng.Intn(3)
 	if !wellFormed && rng.Intn(25) == 0 {
@@ -277,7 +297,7 @@ func (cw *ccWorld) msBeginTerm(b msBeginArgs) string {
 
 func genC09(c *Ctx) error {
 	c.ShardSize = 20
-	c.Notes["rule"] = "two deployed chaincodes (TT, VT), two users, a settable clock. (one) arbitrary step sequences on one channel: multiSwapBegin through a batch and through executeTasks (ids from a pool of three incl. one in upper-case hex), asset lists of 0-3 groups (a group listed twice, an asset labelled with another token, the 2nd/3rd asset under-funded, negative amounts), direct / reverse / foreign-token / wrong-channel begins, robot answers with arbitrary records (also onto occupied ids), robot and user completions with right and wrong keys, cancels by the creator and by a stranger with the clock at time-out -1 / 0 / +1 and elsewhere; every step observed (error class, key event, all balances, all records, the multi-swaps the batch reply announces). (two) interleavings of well-formed begins on both channels with the robot (answers what batch replies announced), completions at any time with any key, clock ticks, creator and stranger cancels; disciplined runs (cancel only unanswered swaps) and undisciplined ones (the creator also cancels after the answer: finding F8); half of the runs drained. Non-trivial: >= 2 successful and >= 2 rejected steps / >= 3 successful protocol steps."
+	c.Notes["rule"] = "two deployed chaincodes (TT, VT), two users, a settable clock. (one) arbitrary step sequences on one channel: multiSwapBegin through a batch and through executeTasks (ids from a pool of three incl. one in upper-case hex), asset lists of 0-3 groups (a quarter of the worlds have a holder of 2^66 per group whose multi-swaps add up beyond 2^64; a group listed twice, an asset labelled with another token, the 2nd/3rd asset under-funded, negative amounts), direct / reverse / foreign-token / wrong-channel begins, robot answers with arbitrary records (also onto occupied ids), robot and user completions with right and wrong keys, cancels by the creator and by a stranger with the clock at time-out -1 / 0 / +1 and elsewhere; every step observed (error class, key event, all balances, all records, the multi-swaps the batch reply announces). (two) interleavings of well-formed begins on both channels with the robot (answers what batch replies announced), completions at any time with any key, clock ticks, creator and stranger cancels; disciplined runs (cancel only unanswered swaps) and undisciplined ones (the creator also cancels after the answer: finding F8); half of the runs drained. Non-trivial: >= 2 successful and >= 2 rejected steps / >= 3 successful protocol steps."
 	n := c.N(120, 2500)
 	for i := 0; i < n; i++ {
 		if i%2 == 0 {
@@ -301,6 +321,9 @@ func c09One(c *Ctx) error {
 		return err
 	}
 	cw.msFund()
+	if c.Rng.Intn(4) == 0 {
+		cw.msWhale()
+	}
 	ch := []string{"tt", "vt"}[rng.Intn(2)]
 	own := strings.ToUpper(ch)
 	other := map[string]string{"tt": "VT", "vt": "TT"}[ch]
@@ -446,6 +469,9 @@ func c09Two(c *Ctx, disc bool) error {
 		return err
 	}
 	cw.msFund()
+	if c.Rng.Intn(4) == 0 {
+		cw.msWhale()
+	}
 	t0 := cw.w.Peer.Now
 	initA, initB := cw.balTerm("tt"), cw.balTerm("vt")
 	ids := []string{"a1", "a2", "a3"}
